@@ -318,7 +318,49 @@ type c11spec struct {
 	sign    bool     // Basic256Sha256 / Sign instead of None
 }
 
+// c11run runs a scenario; forced (explicit order) scenarios are run twice and must come out the same: a schedule the
+// controller could not establish (machine too slow for a real timer, a thread not where it was expected) is
+// inconclusive and is run again instead of being taken for the intended one.
 func c11run(r *rng.R, sp c11spec) error {
+	if len(sp.order) == 0 {
+		var err error
+		for attempt := 0; attempt < 3; attempt++ {
+			var c map[string]interface{}
+			rr := *r // the same random schedule again
+			if c, err = c11once(&rr, sp); err == nil {
+				emit(c)
+				return nil
+			}
+		}
+		return err
+	}
+	sig := func(c map[string]interface{}) string {
+		return fmt.Sprint(c["steps"], c["events"], len(c["wire"].([][]interface{})), c["results"])
+	}
+	var runs []map[string]interface{}
+	var lastErr error
+	for attempt := 0; attempt < 5; attempt++ {
+		c, err := c11once(rng.New(1), sp)
+		if err != nil {
+			lastErr = err
+			continue
+		}
+		for _, prev := range runs {
+			if sig(prev) == sig(c) {
+				c["attempts"] = attempt + 1
+				emit(c)
+				return nil
+			}
+		}
+		runs = append(runs, c)
+	}
+	if len(runs) == 0 {
+		return lastErr
+	}
+	return fmt.Errorf("forced schedule not reproducible in %d runs (inconclusive)", len(runs))
+}
+
+func c11once(r *rng.R, sp c11spec) (map[string]interface{}, error) {
 	reqTimeout := 5 * time.Second
 	if sp.holdOPN {
 		reqTimeout = 60 * time.Millisecond
@@ -328,18 +370,18 @@ func c11run(r *rng.R, sp c11spec) error {
 	if sp.sign {
 		cs, err := selfSigned("client")
 		if err != nil {
-			return err
+			return nil, err
 		}
 		ss, err := selfSigned("server")
 		if err != nil {
-			return err
+			return nil, err
 		}
 		cs.Policy, cs.Mode = ua.SecurityPolicyURIBasic256Sha256, ua.MessageSecurityModeSign
 		po.Sec, po.SrvSec = cs, ss
 	}
 	p, err := NewPair(po)
 	if err != nil {
-		return err
+		return nil, err
 	}
 	defer p.Close()
 	stop := make(chan struct{})
@@ -375,7 +417,7 @@ func c11run(r *rng.R, sp c11spec) error {
 			bang := strings.HasSuffix(o, "!")
 			t := b.byName(strings.TrimSuffix(strings.TrimSuffix(o, "*"), "!"))
 			if t == nil {
-				return fmt.Errorf("unknown thread %s", o)
+				return nil, fmt.Errorf("unknown thread %s", o)
 			}
 			for i := 0; i < 40; i++ {
 				if t.done {
@@ -491,10 +533,14 @@ func c11run(r *rng.R, sp c11spec) error {
 			results[t.name] = "no result"
 		}
 	}
-	emit(map[string]interface{}{"kind": "case", "prop": "C11", "scenario": sp.name, "results": results, "sign": sp.sign, "seq0": seq0, "req0": req0,
+	for _, st := range b.steps {
+		if st[2] == "timeout" {
+			return nil, fmt.Errorf("thread %s did not settle after %s (inconclusive)", st[0], st[1])
+		}
+	}
+	return map[string]interface{}{"kind": "case", "prop": "C11", "scenario": sp.name, "results": results, "sign": sp.sign, "seq0": seq0, "req0": req0,
 		"events": b.events, "wire": wireOf(fs), "schedule": schedule, "steps": b.steps, "deadlock": deadlock, "log": b.log,
-		"chunks": sp.chunks, "renews": sp.renews, "full": true, "server_errors": p.Srv.Errs()})
-	return nil
+		"chunks": sp.chunks, "renews": sp.renews, "full": true, "server_errors": p.Srv.Errs()}, nil
 }
 
 func c11(seed uint64, n int, schedArg string) {
